@@ -3,8 +3,10 @@
 // templates and records one self-contained event per public call: {op,o,x,pre,post,ret,cap,obs}
 // (+ life events for the Tracked element type).  The events are judged by spec/VectorTrace.tla.
 // The same source is built against libstdc++ (-DVH_STD) as the calibration run.
+#define VH_ALLOC_MONITOR
 #include "common.hpp"
 
+#include <optional>
 #include <set>
 #include <stack>
 #include <vector>
@@ -132,6 +134,12 @@ struct Runner {
             }
             for (auto it = r.rbegin(); it != r.rend(); ++it) { a.push_back(*it); }
         } else {
+            if (v.size() > std::max<size_t>(N, 1) * 1 && v.size() > N) {
+                // impossible size (e.g. indeterminate size member): do not walk outside the storage
+                a.push_back(-9999);
+                a.push_back((long)(v.size() % 100000));
+                return a;
+            }
             for (auto it = v.begin(); it != v.end(); ++it) { a.push_back(vh::val_of(*it)); }
         }
         return a;
@@ -231,6 +239,8 @@ struct Runner {
         }
         ret     = 0;
         bool ok = true;
+        std::optional<vh::CallWindow> cw; // allocation monitor: open exactly while the library call runs
+        cw.emplace();
 
         if constexpr (stackish) {
             if (op == "push_back") { v.push(val); }
@@ -314,6 +324,11 @@ struct Runner {
             } else if (op == "ctor_default") {
                 v.~V();
                 new (&v) V();
+            } else if (op == "ctor_dinit") {
+                // default-initialisation ("V v;") into storage holding arbitrary bytes must give an empty vector
+                v.~V();
+                std::memset(static_cast<void*>(&v), (int)n, sizeof(V));
+                new (&v) V;
             } else if (op == "ctor_n") {
                 if constexpr (requires { V(size_t(1)); }) { v.~V(); new (&v) V((size_t)n); } else { ok = false; }
             } else if (op == "ctor_fill") {
@@ -340,6 +355,7 @@ struct Runner {
                 ok = false;
             }
         }
+        cw.reset();
         if constexpr (tracked && !stackish) {
             L.end_window();
             // cells of the harness-owned arguments that are (still) alive after the call
@@ -400,6 +416,20 @@ struct Runner {
         }
         ev["post"] = state();
         ev["ret"]  = ret;
+        if (ob[0]->size() > N || ob[1]->size() > N) {
+            // corrupt object: report what we saw, then rebuild both objects without running destructors
+            ev["obs"]  = json{{"corrupt", true}};
+            ev["inst"] = inst;
+            vh::emit(ev);
+            ++nev;
+            dirty  = true;
+            broken = true;
+            reset();
+            return;
+        }
+#ifndef VH_STD
+        ev["allocs"] = vh::allocs_in_call();
+#endif
         ev["obs"]  = observe_all();
         bool life_ok = true;
 #ifdef VH_STD
@@ -425,6 +455,8 @@ struct Runner {
         ++nev;
     }
 
+    bool mark       = std::getenv("VH_MARK") != nullptr;
+    bool ever_dirty = false;
     bool dirty = false; // an aborted call left the objects in an unknown state: do not destroy them
     void reset()
     {
@@ -432,7 +464,8 @@ struct Runner {
             if (!dirty) { ob[i]->~V(); }
             ob[i] = new (store[i]) V();
         }
-        dirty = false;
+        ever_dirty = ever_dirty || dirty;
+        dirty      = false;
     }
 #ifdef VH_CONTRACT
     // a call that violates a documented precondition: run it in a child, report what happened
@@ -505,6 +538,7 @@ struct Runner {
             if (ln.contains("reset")) {
                 reset();
                 broken = false;
+                if (mark) { vh::emit(json{{"op", "reset"}}); } // script boundary marker (resilient replay)
                 continue;
             }
             if (broken) { continue; } // an earlier call of this script is not provided: the state is not the planned one
@@ -621,6 +655,7 @@ int run_one(Args const& a, Kind k)
     long before = vh::live_count();
     std::string inst = a.kind + "_" + a.elem + "_" + std::to_string(N);
     long nev = 0, nskip = 0;
+    bool abandoned = false; // objects were abandoned without destruction after a corrupt/aborted call
     {
         Runner<V, T, N> r(inst);
         if (a.mode == "replay") {
@@ -631,9 +666,10 @@ int run_one(Args const& a, Kind k)
         }
         nev   = r.nev;
         nskip = r.nskip;
+        abandoned = r.ever_dirty || r.dirty;
     }
     // both owners are destroyed now: nothing they ever constructed may still be alive
-    vh::emit(json{{"op", "owner_end"}, {"inst", inst}, {"live", vh::live_count() - before}});
+    vh::emit(json{{"op", "owner_end"}, {"inst", inst}, {"live", abandoned ? 0 : vh::live_count() - before}, {"abandoned", abandoned}});
     std::fprintf(stderr, "SUMMARY inst=%s events=%ld unsupported=%ld live_delta=%ld\n", inst.c_str(), nev, nskip,
         vh::live_count() - before);
     return 0;
